@@ -7,11 +7,13 @@ git merge --no-commit --no-ff FETCH_HEAD > /tmp/merge.log 2>&1
 for f in MANIFEST.json known_findings.json; do git checkout --ours $f 2>/dev/null; done
 for f in $(git diff --name-only --diff-filter=U); do
   case $f in
-    evidence/*) git checkout --theirs $f; git add $f;;
+    evidence/*) git checkout --ours $f; git add $f;;
     MANIFEST.json|known_findings.json) ;;
     *) echo "CONFLICT in $f";;
   esac
 done
+# evidence must come from /verif run against /repo itself: never take an agent's evidence files
+git checkout -q ORIG_HEAD -- evidence 2>/dev/null || git checkout -q HEAD -- evidence 2>/dev/null
 python3 lib/mkmanifest.py
 git add -A
 if git diff --name-only --diff-filter=U | grep -q .; then echo "unresolved conflicts"; git status --short | grep "^U\|^AA"; exit 1; fi
